@@ -121,11 +121,12 @@ PROPS["C01"] = {
     "level_text": ("Generated objects are serialised, re-parsed by the class's own parser into a fresh object and compared getter by getter; the re-parsed object must serialise to the same XML (up to sibling order); the output must be well-formed and its element skeleton must not depend on the string values (a twin built from the same tape with every free-text value replaced by a short marker has the same skeleton). "
                    "c01.message: QXmppMessage with any subset of its 34 extensions. c01.objects: the classes of the object-first tables in harness/common/objgen_*.h (evidence lists them under labels class:<name>), every optional field present/absent by a tape choice, integers at their type bounds, date-times with and without milliseconds. "
                    "c01.docs: a document from the repository's tests (or a descendant element) x every registered codec that admits it (148 classes) x one attribute or text position: the position is free text for the codec when two probe tokens full of JID/URI/list punctuation, mixed case and inner blanks come back verbatim; "
-                   "a hard value substituted there must come back intact wherever the probe appeared, leave the skeleton unchanged, keep the output well-formed and keep it a parse/serialise fixpoint if the probe document was one. Sampling, not proof."),
+                   "a hard value substituted there must come back intact wherever the probe appeared, leave the skeleton unchanged, keep the output well-formed and keep it a parse/serialise fixpoint if the probe document was one. "
+                   "c01.element: a generated element tree (un-prefixed elements whose default namespace switches among four URIs, also back to an ancestor's; hard attribute values and text) copied by QXmppElement or carried as an unknown child of a message / presence / iq (which declares jabber:client itself or inherits it) must be written back as the same XML infoset. Sampling, not proof."),
     "level_note": "Trusted: the field tables/generators in harness/common/msggen.h and objgen_*.h (written from the headers and the codecs' documented domains), Qt's XML parsers. Strings are non-blank at their edges in the Unicode sense (QChar::isSpace), a literal CR is not generated in text content (XML end-of-line normalisation), U+0000 and other XML-illegal code points never. Classes without a table are not covered by C01 (C02 still runs every registered codec on the repository's documents).",
     "rule": ("choice tape -> object (presence choices x values from G-str: markup metacharacters, quotes, Latin-1/Greek/CJK/combining/RTL/private-use/astral, attribute values also with TAB/LF/CR; typed values at bounds); c01.message: non-trivial = >=1 extension present and >=1 value outside [A-Za-z0-9]; distinct = (presence mask, value classes). "
              "c01.objects: non-trivial = the object serialises to something; distinct = (class, getter dump). "
-             "c01.docs: non-trivial = at least one codec treats the position as free text and the value has a character outside [A-Za-z0-9]; distinct = (document, position, value class, number of codecs)."),
+             "c01.docs: non-trivial = at least one codec treats the position as free text and the value has a character outside [A-Za-z0-9]; distinct = (document, position, value class, number of codecs). c01.element: every case; distinct = the generated document."),
     "assumptions": [
         "fields documented as not serialised in the default mode (e2eeFallbackBody, E2EE metadata) are excluded",
         "XHTML-IM body is generated as well-formed XHTML only (documented raw write) and is exempt from hard values",
@@ -135,6 +136,7 @@ PROPS["C01"] = {
         {"name": "c01.message", "engine": "rapid", "quick": R(6, 12000), "thorough": R(16, 1500000)},
         {"name": "c01.objects", "engine": "rapid", "quick": R(6, 20000), "thorough": R(16, 1500000)},
         {"name": "c01.docs", "engine": "rapid", "quick": R(8, 8000), "thorough": R(16, 150000)},
+        {"name": "c01.element", "engine": "rapid", "quick": R(4, 10000), "thorough": R(16, 500000)},
     ],
 }
 
